@@ -8,8 +8,8 @@ open GoMC Scanner DState Spec
 
 /-- `TagType()` of the writer's text for `t` is the tag of `t` -/
 theorem tagType_wtext (fo : FloatOracle) (fm : FmtOracle) (t : NBT) (hwf : t.WF) (hf : FloatHypT fo fm t)
-    (hd : ndepth t ≤ maxNestingDepth + 1) : tagType fo (wtext fm t) = .ok t.tag := by
-  have hv := valSpec_of_Qt fo fm t (Q_tree fo fm t hwf hf)
+    (h15 : S15 t) (hd : ndepth t ≤ maxNestingDepth + 1) : tagType fo (wtext fm t) = .ok t.tag := by
+  have hv := valSpec_of_Qt fo fm t (Q_tree fo fm t hwf hf h15)
   have hfu : 2 * (wtext fm t).length + 1 ≤ parseFuel (wtext fm t) := by unfold parseFuel; omega
   have h1 := hv [] [] Scanner.reset .cont false [] (parseFuel (wtext fm t)) rfl rfl rfl
     (by simp [Scanner.reset]; omega) trivial (by rw [finish_reset_nil]; simp) hfu
